@@ -413,6 +413,9 @@ func (r *Run) RunFamilies(fams []*Family) {
 	}
 	r.wdStart()
 	for _, f := range fams {
+		if only := os.Getenv("VERIF_ONLY_FAMILY"); only != "" && only != f.Name {
+			continue // development aid; never set by registered commands
+		}
 		t0 := time.Now()
 		par := f.Par
 		if par <= 0 {
